@@ -479,4 +479,93 @@ theorem consumeFieldValue_eq (num : Int) (typ : Nat) (b : Bytes) (hb : b.length 
     simp [Go.len, defaultRecursionLimit]
   · rw [cfvD_scalar _ _ _ _ _ h3 hb, consumeFieldValue_scalar _ _ _ h3]
 
+
+theorem len64_le (v : Nat) (hv : v < 18446744073709551616) : len64 v ≤ 64 := by
+  by_cases h0 : v = 0
+  · subst h0; decide
+  · have := len64_bounds v h0
+    by_cases h : len64 v ≤ 64
+    · exact h
+    · exfalso
+      have h65 : 65 ≤ len64 v := by omega
+      have : 2 ^ 64 ≤ 2 ^ (len64 v - 1) := Nat.pow_le_pow_right (by decide) (by omega)
+      have h2 : (2:Nat) ^ 64 = 18446744073709551616 := by decide
+      omega
+
+theorem sizeVarintGo_eq (v : Nat) (hv : v < 18446744073709551616) :
+    GoSrc.Wire.sizeVarintGo v = .ok (Int.ofNat (sizeVarint v)) := by
+  unfold GoSrc.Wire.sizeVarintGo sizeVarint Go.bitsLen64 Go.toU
+  have hl := len64_le v hv
+  generalize len64 v = L at hl
+  simp only [show (2:Int)^32 = 4294967296 from by decide, Int.ofNat_eq_natCast, pure]
+  congr 1
+  have e1 : ((L : Int) % 4294967296).toNat = L := by omega
+  rw [e1]
+  have e2 : (9 * L % 4294967296 + 64) % 4294967296 = 9 * L + 64 := by omega
+  rw [e2]
+  rw [Int.tdiv_eq_ediv_of_nonneg (by omega)]
+  omega
+
+/-- the loop of `PutUvarint` followed by its last store -/
+def putG (fuel : Nat) (buf : Bytes) (x : Nat) (i : Int) : Res (Bytes × Int) := do
+  let (buf, x, i) ← GoSrc.Wire.putUvarint.loop1 fuel buf x i
+  let t2 ← Go.setIndex buf i (byteOfNat x)
+  pure (t2, (i + (1 : Int)))
+
+theorem setIndex_mid (pre rest : Bytes) (b y : Byte) :
+    Go.setIndex (pre ++ y :: rest) (pre.length : Int) b = .ok (pre ++ b :: rest) := by
+  unfold Go.setIndex
+  rw [if_pos (by simp; omega)]
+  simp
+
+theorem putG_eq (fuel : Nat) : ∀ (pre rest : Bytes) (x : Nat), x < 2 ^ (7 * fuel) → 0 < fuel →
+    (varint x).length ≤ rest.length →
+    putG fuel (pre ++ rest) x pre.length
+      = .ok (pre ++ varint x ++ rest.drop (varint x).length, (pre.length : Int) + (varint x).length) := by
+  induction fuel with
+  | zero => intro pre rest x _ h; omega
+  | succ n ih =>
+    intro pre rest x hx _ hlen
+    unfold putG GoSrc.Wire.putUvarint.loop1
+    by_cases h : x ≥ 128
+    · have hn : 0 < n := by
+        rcases n with _ | n
+        · simp at hx; omega
+        · omega
+      have hx' : x / 128 < 2 ^ (7 * n) := by
+        have : 2 ^ (7 * (n + 1)) = 2 ^ (7 * n) * 128 := by rw [Nat.mul_add, Nat.pow_add]
+        rw [this] at hx
+        generalize 2 ^ (7 * n) = P at hx ⊢
+        omega
+      have hv := varint_ge x (by omega)
+      rw [hv] at hlen ⊢
+      obtain ⟨y, rest', rfl⟩ : ∃ y rest', rest = y :: rest' := by
+        cases rest with
+        | nil => simp at hlen
+        | cons y r => exact ⟨y, r, rfl⟩
+      simp only [h, if_true, setIndex_mid, Res.bind_ok, or128byte]
+      have := ih (pre ++ [byteOfNat (x % 128 + 128)]) rest' (x / 128) hx' hn (by simpa using hlen)
+      unfold putG at this
+      simp only [List.append_assoc, List.singleton_append, List.length_append, List.length_singleton, Int.natCast_add, Int.natCast_one] at this
+      rw [this]
+      simp only [List.length_cons, List.drop_succ_cons, List.cons_append, List.append_assoc, Int.natCast_add, Int.natCast_one]
+      congr 2
+      omega
+    · have hv := varint_lt x (by omega)
+      rw [hv] at hlen ⊢
+      obtain ⟨y, rest', rfl⟩ : ∃ y rest', rest = y :: rest' := by
+        cases rest with
+        | nil => simp at hlen
+        | cons y r => exact ⟨y, r, rfl⟩
+      simp [h, setIndex_mid]
+
+/-- `PutUvarint(buf, x)` writes the varint of `x` over the first bytes of the window and returns its
+length, whenever the window is long enough (otherwise Go panics on `buf[i]`) -/
+theorem putUvarint_eq (x : Nat) (hx : x < 18446744073709551616) (buf : Bytes) (h : (varint x).length ≤ buf.length) :
+    GoSrc.Wire.putUvarint x buf = .ok (varint x ++ buf.drop (varint x).length, ((varint x).length : Int)) := by
+  have := putG_eq 11 [] buf x (by omega) (by omega) h
+  unfold putG at this
+  unfold GoSrc.Wire.putUvarint
+  simpa using this
+
 end Pico.GoTie.W
